@@ -302,6 +302,10 @@ impl Prop for Frames {
         120
     }
 
+    fn breadcrumbs(&self) -> bool {
+        true
+    }
+
     fn gen(&self, src: &mut Src) -> Case {
         let msg = gen_msg(src);
         let noise = (0..4).map(|_| src.word()).collect();
